@@ -45,6 +45,7 @@ func checkC10(r *core.Run) {
 	ruleRenewOwner(r)
 	r.Rule("T-loopvar: in the sao and did message handlers no address of a per-loop variable is stored into a slice/field inside its loop (revoking several accounts in one MsgUpdate must unbind each of them, since CreatorIsBoundToDid reads those bindings)")
 	ruleLoopVarAddr(r, "T-loopvar", "sao/keeper.msgServer.", "did/keeper.msgServer.")
+	r.Rule("G-pay: UpdatePaymentAddress makes an account the payment address of a sid DID only if that account is bound to that very DID (it signed a binding proof for it) and the submitter is bound to it too; of a key DID only the address itself, once — otherwise a stranger's account is charged for orders it never signed")
 	ruleSigOwner(r)
 	r.Assume(aDeps)
 	r.Assume(aCG)
@@ -98,6 +99,9 @@ func checkC10(r *core.Run) {
 		cl("signer-is-that-gateway-or-its-registered-address",
 			sponsor, bound, guard.Eq(msg+".Provider", msg+".Creator"), guard.Eq("elem("+fGetNode+"("+msg+".Provider)#0.TxAddresses)", msg+".Creator")),
 	}, 1)
+
+	// ---- who can be made the payer of a DID's orders
+	rulePayGuards(r)
 
 	// ---- node handlers: keys and counter-parties are the signer
 	creator := []string{msg + ".Creator"}
